@@ -299,6 +299,19 @@ Theorem entries_element_read :
 Proof. exact entry_entry_written. Qed.
 Print Assumptions entries_element_read.
 
+(* a body whose reader fails part-way (truncated or corrupted gzip / snappy stream, broken connection; decode_cut: the
+   decoder gets through n callback invocations before the error ends it; only with nothing left to decode may the error go
+   unnoticed): the request FAILS -- and what it had sent before is a prefix of the whole body's response sequence --, or it
+   is answered exactly as the whole body is: never an acknowledged prefix of the rows *)
+Theorem cut_body_fails_or_is_answered_in_full :
+  forall fp enc_len CS cache_add cache0 threshold flush_limit ctx_ttl (n : nat) (noticed : bool) (b : body),
+  match decode_cut fp enc_len CS cache_add cache0 threshold flush_limit ctx_ttl n noticed b with
+  | ReadFailed sent => exists rest, result_chunks (decode fp enc_len CS cache_add cache0 threshold flush_limit ctx_ttl b) = (sent ++ rest)%list
+  | Answered r => exists cs, r = Done cs /\ Forall chunk_rect cs /\ rows_of cs = rows_spec fp ctx_ttl (entries_of b)
+  end.
+Proof. intros. apply cut_fails_or_full. Qed.
+Print Assumptions cut_body_fails_or_is_answered_in_full.
+
 (* ---------------------------------------------------------------- Datadog log tags (tagPattern, model/DatadogJson.v) *)
 
 (* a Datadog log document written by a client -- an array of objects with ddtags written k:v,k:v, optional ddsource / service /
@@ -438,4 +451,12 @@ Example elastic_bulk_lines_computed :
                EL "d2"%string EsDoc; EL "a2"%string EsClear; EL "d3"%string EsDoc] in
   map (fun e => (List.length (e_labels e), e_msg e, e_ts e)) (entries_es (CK 0 9 [5; 6; 7]) body) = [(2%nat, "d1"%string, 5); (2%nat, "d2"%string, 6)].
 Proof. vm_compute. reflexivity. Qed.
+
+Example cut_body_computed :
+  let b := BLokiPb [LS [("a", "1")]%string [LE 1 (Some "x"%string) None]; LS [("b", "2")]%string [LE 2 (Some "y"%string) None]] in
+  let cut n noticed := decode_cut (fun _ => 7%N) (fun _ => 10) unit miss_cache tt 0 1000%N 0%N n noticed b in
+  (match cut 1%nat false with ReadFailed sent => List.length sent | Answered _ => 99%nat end) = 1%nat /\
+  (match cut 2%nat true with ReadFailed sent => List.length sent | Answered _ => 99%nat end) = 2%nat /\
+  (match cut 2%nat false with Answered (Done cs) => List.length (rows_of cs) | _ => 99%nat end) = 2%nat.
+Proof. vm_compute. repeat split. Qed.
 
